@@ -22,7 +22,7 @@ def universe_hash():
 
 
 def plan(tier, seed, complete=False):
-    items, zinfo = PL.plan_docs(tier, seed, complete, quick={"Z2": 16000, "Z3": 4000, "Z4": 4000})
+    items, zinfo = PL.plan_docs(tier, seed, complete, quick={"Z2": 16000, "Z3": 4000, "Z4": 4000}, check="C03")
     return {
         "items": items, "zones": zinfo, "exhaustive": False,
         "rule": "documents of the frozen universes; differential oracle = markdown-it-py HTML vs pymarkdown HTML after "
